@@ -48,7 +48,8 @@ def main(src, dst):
         elif r['missing']:
             del row['value']
         encoding = layout.Encoding.parse('foo/bar')[0] if r['badenc'] else json_enc
-        return layout.Request(json.dumps([row]).encode(), encoding, accept=[json_enc])
+        accept = [layout.Encoding.parse('image/png')[0]] if r.get('badaccept') else [json_enc]
+        return layout.Request(json.dumps([row]).encode(), encoding, accept=accept)
 
     async def one(r):
         await asyncio.sleep(r['arrival'] / 1000)
